@@ -56,6 +56,7 @@ type Replay struct {
 	Limit   *int      `json:"limit,omitempty"`
 	History []histReq `json:"history,omitempty"`
 	Fixed   bool      `json:"fixed_limit_server,omitempty"`
+	Fault   *ctxFault `json:"context_fault,omitempty"`
 	A       *int      `json:"a,omitempty"` // safeAdd operands
 	B       *int      `json:"b,omitempty"`
 }
@@ -83,6 +84,7 @@ type Config struct {
 	FullGateMax int // sizes <= this: executor gate for every assignment; above: one assignment per distinct complexity value
 	HTTPMax     int // sizes <= this: additionally through handler.Server + POST
 	HistMax     int // sizes <= this: request histories through a long-lived executor
+	CtxMax      int // sizes <= this: context-fault enumeration
 	Grammar     *Grammar
 	Deadline    time.Time
 }
@@ -169,12 +171,16 @@ func asString(as Assign) string {
 
 // calc calls the real complexity.Calculate, turning a panic into an error.
 func calc(es graphql.ExecutableSchema, def *ast.OperationDefinition, vars map[string]any) (c int, err error) {
+	return calcCtx(context.Background(), es, def, vars)
+}
+
+func calcCtx(ctx context.Context, es graphql.ExecutableSchema, def *ast.OperationDefinition, vars map[string]any) (c int, err error) {
 	defer func() {
 		if r := recover(); r != nil {
 			err = fmt.Errorf("panic: %v", r)
 		}
 	}()
-	return complexity.Calculate(context.Background(), es, def, vars), nil
+	return complexity.Calculate(ctx, es, def, vars), nil
 }
 
 // ---- gate through the real executor ----
@@ -222,7 +228,12 @@ func (w *worker) newSession(es graphql.ExecutableSchema, fixed *int, dynamic boo
 }
 
 // do sends one request through the session's executor the way a transport does.
-func (w *worker) do(s *session, text string, opName string, rawVars map[string]any, dynLimit *int) (out gateOutcome) {
+func (w *worker) do(s *session, text string, opName string, rawVars map[string]any, dynLimit *int) gateOutcome {
+	return w.doCtx(context.Background(), s, text, opName, rawVars, dynLimit)
+}
+
+// doCtx: as do, with the request context given by the caller (context faults).
+func (w *worker) doCtx(base context.Context, s *session, text string, opName string, rawVars map[string]any, dynLimit *int) (out gateOutcome) {
 	defer func() {
 		if r := recover(); r != nil {
 			out.panicValue = r
@@ -230,7 +241,7 @@ func (w *worker) do(s *session, text string, opName string, rawVars map[string]a
 	}()
 	w.log.take()
 	exec := s.exec
-	ctx := graphql.StartOperationTrace(context.Background())
+	ctx := graphql.StartOperationTrace(base)
 	params := &graphql.RawParams{Query: text, OperationName: opName, Variables: rawVars, Headers: http.Header{}}
 	if dynLimit != nil {
 		params.Headers.Set(limitHeader, strconv.Itoa(*dynLimit))
@@ -351,6 +362,11 @@ type httpOutcome struct {
 }
 
 func (w *worker) runHTTP(es graphql.ExecutableSchema, limit *int, text string, rawVars map[string]any) (httpOutcome, error) {
+	return w.runHTTPCtx(nil, es, limit, text, rawVars)
+}
+
+// runHTTPCtx: reqCtx, when not nil, is the request's context (context faults).
+func (w *worker) runHTTPCtx(reqCtx context.Context, es graphql.ExecutableSchema, limit *int, text string, rawVars map[string]any) (httpOutcome, error) {
 	w.log.take()
 	srv := handler.New(es)
 	srv.AddTransport(transport.POST{})
@@ -367,6 +383,9 @@ func (w *worker) runHTTP(es graphql.ExecutableSchema, limit *int, text string, r
 	bb, _ := json.Marshal(body)
 	req := httptest.NewRequest(http.MethodPost, "/query", bytes.NewReader(bb))
 	req.Header.Set("Content-Type", "application/json")
+	if reqCtx != nil {
+		req = req.WithContext(reqCtx)
+	}
 	rec := httptest.NewRecorder()
 	srv.ServeHTTP(rec, req)
 	var parsed struct {
@@ -446,6 +465,106 @@ func (w *worker) gate(order []int, p *prepared, as Assign, es graphql.Executable
 	if o.rejected || o.data != base.data || o.respErrs != base.respErrs || !sameLog(o.log, base.log) {
 		w.report(order, "gate-allow", "gate-allow:"+p.text+"|"+asString(as)+fmt.Sprintf("|L=%d", limit),
 			fmt.Sprintf("within the limit but rejected=%v; data=%s (unlimited run: %s) resolvers=%v (unlimited: %v) (%s)", o.rejected, o.data, base.data, o.log, base.log, desc), rp)
+	}
+}
+
+// ---- context faults: the request context is done before / becomes done during the walk ----
+
+// ctxFault is one placement of "the request context is done".
+type ctxFault struct {
+	Kind string `json:"kind"`        // cancelled-before | deadline-expired | cancel-in-call
+	K    int    `json:"k,omitempty"` // cancel-in-call: the context is cancelled inside the K-th custom complexity function call
+}
+
+func (f ctxFault) String() string {
+	if f.Kind == "cancel-in-call" {
+		return fmt.Sprintf("context cancelled inside custom complexity call #%d", f.K)
+	}
+	return "context " + f.Kind
+}
+
+// faultCtx arms the fault and returns the context to use for ONE request/walk and a disarm func.
+func faultCtx(f ctxFault) (context.Context, func()) {
+	switch f.Kind {
+	case "cancelled-before":
+		ctx, cancel := context.WithCancel(context.Background())
+		cancel()
+		return ctx, func() {}
+	case "deadline-expired":
+		ctx, cancel := context.WithDeadline(context.Background(), time.Unix(1, 0))
+		return ctx, cancel
+	case "cancel-in-call":
+		ctx, cancel := context.WithCancel(context.Background())
+		n := 0
+		onCustomCall = func() {
+			n++
+			if n == f.K {
+				cancel()
+			}
+		}
+		return ctx, func() { onCustomCall = nil; cancel() }
+	}
+	panic("faultCtx: " + f.Kind)
+}
+
+// countCustomCalls: number of custom complexity function calls of one live-context walk.
+func countCustomCalls(es graphql.ExecutableSchema, p *prepared) int {
+	n := 0
+	onCustomCall = func() { n++ }
+	calc(es, p.def, p.vars)
+	onCustomCall = nil
+	return n
+}
+
+// ctxFaults enumerates every fault placement for (operation, assignment): the context is
+// already cancelled, has an expired deadline, or is cancelled inside the k-th custom complexity
+// function call for every k of the walk. Oracle: Calculate returns the reference value as with a
+// live context; through the executor with FixedComplexityLimit an over-limit operation invokes no
+// resolver and yields no data (which error is reported is not constrained), an at-or-below-limit
+// operation is not rejected for complexity, and ComplexityStats equal the reference.
+func (w *worker) ctxFaults(order []int, p *prepared, as Assign, es graphql.ExecutableSchema, cref int) {
+	calls := countCustomCalls(es, p)
+	w.counts["ctx_fault_call_positions"] += int64(calls)
+	faults := []ctxFault{{Kind: "cancelled-before"}, {Kind: "deadline-expired"}}
+	for k := 1; k <= calls; k++ {
+		faults = append(faults, ctxFault{Kind: "cancel-in-call", K: k})
+	}
+	for fi, f := range faults {
+		f := f
+		o := append(append([]int{}, order...), 1<<22+fi)
+		rp := Replay{Op: p.op, Text: p.text, Assign: as, Fault: &f}
+		ctx, disarm := faultCtx(f)
+		cimpl, err := calcCtx(ctx, es, p.def, p.vars)
+		disarm()
+		w.counts["ctx_fault_calculate_calls"]++
+		if err != nil || cimpl != cref {
+			w.report(o, "ctx-calc", fmt.Sprintf("ctx-calc:%s|%s|%s", p.text, asString(as), f),
+				fmt.Sprintf("%s: complexity.Calculate = %d (err %v), with a live context and by the reference %d; %s | custom %s", f, cimpl, err, cref, p.text, asString(as)), rp)
+		}
+		for _, l := range []int{cref - 1, cref} {
+			l := l
+			rp.Limit = &l
+			s := w.newSession(es, &l, false, nil)
+			ctx, disarm := faultCtx(f)
+			out := w.doCtx(ctx, s, p.text, "", p.rawVars, nil)
+			disarm()
+			w.counts["ctx_fault_gate_runs"]++
+			var msg string
+			switch {
+			case out.panicValue != nil:
+				msg = fmt.Sprintf("panic: %v", out.panicValue)
+			case out.stats == nil || out.stats.Complexity != cref || out.stats.ComplexityLimit != l:
+				msg = fmt.Sprintf("ComplexityStats = %+v, want {%d %d}", out.stats, cref, l)
+			case cref > l && (len(out.log) != 0 || (out.data != "" && out.data != "null")):
+				msg = fmt.Sprintf("over the limit (%d > %d) but resolvers=%v data=%s rejected=%v", cref, l, out.log, out.data, out.rejected)
+			case cref <= l && out.rejected:
+				msg = fmt.Sprintf("within the limit (%d <= %d) but rejected for complexity", cref, l)
+			}
+			if msg != "" {
+				w.report(o, "ctx-gate", fmt.Sprintf("ctx-gate:%s|%s|L=%d|%s", p.text, asString(as), l, f),
+					fmt.Sprintf("%s, FixedComplexityLimit(%d): %s; %s | custom %s", f, l, msg, p.text, asString(as)), rp)
+			}
+		}
 	}
 }
 
@@ -592,6 +711,11 @@ func (w *worker) evalOp(p *prepared) {
 				}
 			}
 		}
+		// context faults: no custom function (context already done) for every operation; every
+		// single-field assignment for operations within the full-gate size
+		if size <= w.cfg.CtxMax && (len(as) == 0 || (fullGate && len(as) == 1)) {
+			w.ctxFaults(order, p, as, es, cref)
+		}
 		if !fullGate && seenC[cref] {
 			return
 		}
@@ -608,6 +732,27 @@ func (w *worker) evalOp(p *prepared) {
 			w.runHistory(append(order, 1<<21), es, p.text, as, false, []histReq{r(cref), r(cref - 1), r(cref)}, rp)
 		}
 	})
+
+	// context faults at every position of the walk: a custom function (const 1) on EVERY field
+	// the operation touches, so that each field node of the walk (each implementor for interface
+	// selections) is a call position
+	if size <= w.cfg.CtxMax && len(p.relevant) > 0 {
+		as := Assign{}
+		for _, k := range p.relevant {
+			as[k] = FnC1
+		}
+		order := []int{size, p.idx, 1<<30 - 1}
+		cref, _, _ := RefComplexity(p.op, as)
+		es := w.es(as)
+		cimpl, err := calc(es, p.def, p.vars)
+		w.counts["calculate_calls"]++
+		if err != nil || cimpl != cref {
+			w.report(order, "calc", "calc:"+p.text+"|"+asString(as), fmt.Sprintf("complexity.Calculate = %d (err %v), reference = %d for %s | custom %s", cimpl, err, cref, p.text, asString(as)), Replay{Op: p.op, Text: p.text, Assign: as})
+		} else {
+			w.counts["ctx_fault_all_fields_assignments"]++
+			w.ctxFaults(order, p, as, es, cref)
+		}
+	}
 
 	// functions on fields the definition never consults must not matter
 	{
@@ -648,6 +793,34 @@ func (w *worker) evalOp(p *prepared) {
 			case cref <= l && (o.rejected || o.data != base.data || !sameLog(o.log, base.log)):
 				w.report([]int{size, p.idx, 1<<30 + 1}, "http", fmt.Sprintf("http-allow:%s|L=%d", p.text, l),
 					fmt.Sprintf("POST: within the limit (%d <= %d) but rejected=%v data=%s (unlimited %s) for %s", cref, l, o.rejected, o.data, base.data, p.text), rp)
+			}
+		}
+	}
+
+	// HTTP with a request context that is already done (client gone / deadline passed)
+	if size <= w.cfg.HTTPMax && size <= w.cfg.CtxMax {
+		cref, _, _ := RefComplexity(p.op, Assign{})
+		for fi, f := range []ctxFault{{Kind: "cancelled-before"}, {Kind: "deadline-expired"}} {
+			f := f
+			for _, l := range []int{cref - 1, cref} {
+				l := l
+				w.counts["ctx_fault_http_runs"]++
+				ctx, disarm := faultCtx(f)
+				o, err := w.runHTTPCtx(ctx, baseES, &l, p.text, p.rawVars)
+				disarm()
+				rp := Replay{Op: p.op, Text: p.text, Limit: &l, Fault: &f}
+				var msg string
+				switch {
+				case err != nil:
+					msg = err.Error()
+				case cref > l && (len(o.log) != 0 || (o.data != "" && o.data != "null")):
+					msg = fmt.Sprintf("over the limit (%d > %d) but resolvers=%v data=%s", cref, l, o.log, o.data)
+				case cref <= l && o.rejected:
+					msg = fmt.Sprintf("within the limit (%d <= %d) but rejected for complexity", cref, l)
+				}
+				if msg != "" {
+					w.report([]int{size, p.idx, 1<<30 + 1, fi}, "ctx-http", fmt.Sprintf("ctx-http:%s|L=%d|%s", p.text, l, f), fmt.Sprintf("POST, %s: %s; %s", f, msg, p.text), rp)
+				}
 			}
 		}
 	}
@@ -781,6 +954,7 @@ func main() {
 	fullGate := flag.Int("fullgate", 3, "sizes <= this get the executor gate for every assignment")
 	httpMax := flag.Int("http", 4, "sizes <= this also go through HTTP POST")
 	histMax := flag.Int("hist", 4, "sizes <= this get request histories through a long-lived executor")
+	ctxMax := flag.Int("ctx", 4, "sizes <= this get the context-fault enumeration")
 	budget := flag.Int("budget", 100, "seconds")
 	shard := flag.Int("shard", 0, "this process handles generated operations with index % shards == shard")
 	shards := flag.Int("shards", 1, "number of harness processes")
@@ -794,7 +968,7 @@ func main() {
 		writeResult(*out, res)
 		os.Exit(2)
 	}
-	cfg := &Config{Layout: *layout, MaxNodes: *maxNodes, FullGateMax: *fullGate, HTTPMax: *httpMax, HistMax: *histMax, Grammar: grammarFor(*tier),
+	cfg := &Config{Layout: *layout, MaxNodes: *maxNodes, FullGateMax: *fullGate, HTTPMax: *httpMax, HistMax: *histMax, CtxMax: *ctxMax, Grammar: grammarFor(*tier),
 		Deadline: time.Now().Add(time.Duration(*budget) * time.Second)}
 
 	if err := selfCheckFns(); err != nil {
@@ -982,6 +1156,21 @@ func runReplay(w *worker, schema *ast.Schema, path string) {
 				fmt.Printf("  sub-operation %s: Calculate = %d, reference = %d\n", r.Text(), cs, rr)
 			}
 		}
+	}
+	if rp.Fault != nil {
+		ctx, disarm := faultCtx(*rp.Fault)
+		cf, err := calcCtx(ctx, es, def, vars)
+		disarm()
+		fmt.Printf("%s: complexity.Calculate = %d (err %v); custom calls in a live walk: %d\n", *rp.Fault, cf, err,
+			countCustomCalls(es, &prepared{def: def, vars: vars}))
+		if rp.Limit != nil {
+			ctx, disarm := faultCtx(*rp.Fault)
+			o := w.doCtx(ctx, w.newSession(es, rp.Limit, false, nil), text, opName, rawVars, nil)
+			disarm()
+			fmt.Printf("executor with FixedComplexityLimit(%d) under the fault: rejected=%v resolvers=%v data=%s stats=%+v otherErrs=%v panic=%v\n",
+				*rp.Limit, o.rejected, o.log, o.data, o.stats, o.otherErrs, o.panicValue)
+		}
+		return
 	}
 	if len(rp.History) > 0 {
 		var sess *session
